@@ -99,6 +99,13 @@ func (x *Exec) VerifyFunc(fn *ssa.Function) (rep *FuncReport) {
 	rep.Returns = len(res.Rets)
 	rep.PanicExits = len(res.Panics)
 	entry := f.entry
+	for _, c := range sp.Of("before") {
+		if f.beforeSeen == 0 {
+			// vacuity guard: the call the assertion talks about is no longer there
+			x.oblige("before-reached", "a static call of "+c.Name+" is reached", fmt.Sprintf("%s:%d", shortFile(c.File), c.Line), st, x.B.False())
+			break
+		}
+	}
 	for i, r := range res.Rets {
 		if r.st.PC.IsFalse() {
 			continue
